@@ -17,4 +17,5 @@ var Checks = map[string]vk.Check{
 	"C17": C17,
 	"C05": C05,
 	"C14": C14,
+	"C01": C01,
 }
